@@ -72,6 +72,27 @@ TEXT["C16"] = dict(
     design_ref="5 (C16)",
 )
 
+TEXT["C20"] = dict(
+    category="fault_enumeration",
+    technique="seeded simulation + complete single-fault enumeration per suspension: exception injected at every k-th dynamic call of each trickery analysis step; referents-mode relation vs shadow",
+    text="Program world observed at every suspension. Off-legs: trickery disabled, reported list vs shadow (ordered sub-sequence of true managers, exiting entry iff exit in progress, "
+    "every extra entry is the manager being entered/exited). Fault-legs: for every suspension the fault-free extraction's calls of analyze_with_blocks / inspect_frame / "
+    "currently_exiting_context are counted and an exception is injected at every one of them in turn (complete for single faults at that state; states are sampled): exactly an "
+    "InspectionWarning, no exception, no Stack.error, same frames, same relation. The set_trickery_enabled thread-interleaving leg is part of the threads simulation.",
+    note="Trusted: shadow incl. F.entering; injection through the module attributes stackscope._lowlevel.<step> (how _contexts_active_by_trickery reaches them); C-implemented managers excluded (documented limitation of the referents analysis).",
+    design_ref="5 (C20)",
+)
+TEXT["C06"] = dict(
+    category="exploration",
+    technique="seeded simulation: observed/unobserved twin runs on one tape; refcount baseline of value-stack-only sentinels; collectability; crash = violation",
+    text="Each generated program runs twice on the same tape: unobserved, and observed at a seeded subset of suspensions and probes (1-3 extractions each, suspended root, running stack, "
+    "running root; trickery and referents legs). World event logs must be identical; repeated extractions of an unchanged target compare equal; sentinels living only on a value stack return to "
+    "their reference-count baseline after results are dropped; managers/generators/frames are as collectable after the observed twin as after the unobserved one; no suspended generator "
+    "of stackscope's own is left behind; a worker killed by a signal is a violation with the run's tape as replay.",
+    note="Trusted: CPython's own refcounts as the measuring instrument; objects bound to locals are excluded from the refcount clause (frame.f_locals snapshots legitimately hold them).",
+    design_ref="5 (C06)",
+)
+
 PENDING_REASON = "check not built yet in this round (work in progress; see DESIGN.md section 5 for the planned simulation)"
 
 ALL = ["C%02d" % i for i in range(1, 21)]
